@@ -705,7 +705,7 @@ pub mod gpos_split {
             }
             if fmt & (0x10 << f) != 0 {
                 let x = h(spec, a, b, which * 16 + 8 + f);
-                v.devices[f as usize] = Some(if x % 8 < spec.dev_density { Some(((x >> 8) % 6) as u16).map(|o| (o, ((x >> 16) % 40) as u16)) } else { None });
+                v.devices[f as usize] = Some(if x % 8 < spec.dev_density { Some(((x >> 8) % 23) as u16).map(|o| (o, ((x >> 16) % 311) as u16)) } else { None });
             }
         }
         v
@@ -1032,6 +1032,38 @@ pub mod gpos_split {
                     }
                     cx.st.nontrivial(&format!("{:?}", spec));
                 }
+            }
+        }
+        // (1b) many pieces: sizes that force 3, 4 and 5+ split-off subtables for every splittable kind
+        //      (PairPos1; PairPos2 with devices in record 1 / record 2 / both; MarkBase with many classes)
+        for target in [140_000usize, 200_000, 270_000] {
+            for shape in 0..5u32 {
+                let dev = *rng.pick(&[0x10u16, 0x20, 0x40, 0x80, 0x30, 0xC0, 0x50, 0xF0]);
+                let scal = *rng.pick(&[0x4u16, 0x5, 0x1, 0x0]);
+                let (kind, fmt1, fmt2) = match shape {
+                    0 => (PP1, scal | if rng.chance(1, 2) { dev } else { 0 } | 0x4, *rng.pick(&[0u16, 0x4])),
+                    1 => (PP2, scal | dev, *rng.pick(&[0u16, 0x4])),
+                    2 => (PP2, *rng.pick(&[0x4u16, 0x5]), scal | dev),
+                    3 => (PP2, 0x4 | dev, *rng.pick(&[0x10u16, 0x20, 0x40, 0x80])),
+                    _ => (MARKBASE, 0, 0),
+                };
+                let rec_len = 2 * (fmt1.count_ones() + fmt2.count_ones()) as usize;
+                let (n1, n2) = match kind {
+                    PP1 => { let n2 = 4 + rng.below(5) as usize; ((target / (n2 * (2 + rec_len) + 4)).clamp(50, 12_000), n2) }
+                    PP2 => { let n2 = 30 + rng.below(60) as usize; ((target * 6 / 10 / (n2 * rec_len.max(2))).clamp(4, 4000), n2) }
+                    _ => { let n2 = 10 + rng.below(7) as usize; ((target / (n2 * 8)).clamp(100, 4000), n2) }
+                };
+                let spec = Spec { kind, fmt1, fmt2, n1: n1 as u16, n2: n2 as u16, salt: rng.next_u32(), dev_density: *rng.pick(&[4u32, 7, 8]) };
+                let lookup = build_lookup(&spec);
+                let blobs = vec![(rng.chance(1, 2), 6u8, *rng.pick(&[8usize, 500]))];
+                let r = run_one(&spec, &lookup, &blobs);
+                let kindname = match kind { PP1 => "pairpos1", PP2 => "pairpos2", _ => "markbase" };
+                cx.st.evaluations += 1;
+                cx.st.count(&format!("gpos.pieces.{kindname}.{}", match &r { Res::Ok(n) if *n >= 5 => "ok_5plus".to_string(), Res::Ok(n) => format!("ok_{n}"), Res::Err => "packing_failed".into(), Res::Fail(..) => "FAIL".into() }));
+                if let Res::Fail(class, detail) = &r {
+                    cx.st.oracle_failure(json!({"key": format!("gpos:{kindname}:{class}"), "spec": format!("{:?}", spec), "blobs": format!("{:?}", blobs), "why": detail}));
+                }
+                cx.st.nontrivial(&format!("{:?}", spec));
             }
         }
         // (2) boundary-seeking sweeps
